@@ -93,6 +93,28 @@ def check_relations(mode, obj, text, flagnames, names, out, stream, as_bytes=Fal
                     d = sorted(acc ^ other)[0]
                     out.violation(dict(case, relation='FORCEWIN|FORCEUNIX == neither', name=d), size=len(text), bucket=('R4', mode))
                     return
+            # R8: a list (or SPLIT alternatives) of the pattern and its case-swapped spelling accepts exactly the union of the
+            # two single patterns - under every one of the 16 flag subsets (no spelling may be dropped as a "duplicate")
+            if swapped_text is not None and swapped_text != text:
+                both = accepted(mode, text, names, fl, as_bytes) | accepted(mode, swapped_text, names, fl, as_bytes)
+                forms = [('list', [text, swapped_text]), ('list-reversed', [swapped_text, text])]
+                if '|' not in text and '|' not in swapped_text:
+                    forms.append(('split', text + '|' + swapped_text))
+                for label, pats in forms:
+                    mod = F if mode == 'fn' else G
+                    cfl = fl | (mod.SPLIT if label == 'split' else 0)
+                    if as_bytes:
+                        encp = pats.encode('latin-1') if isinstance(pats, str) else [x.encode('latin-1') for x in pats]
+                        enc = {n.encode('latin-1'): n for n in names}
+                        got = {enc[g] for g in (F.filter if mode == 'fn' else G.globfilter)(list(enc), encp, flags=cfl)}
+                    else:
+                        got = set((F.filter if mode == 'fn' else G.globfilter)(names, pats, flags=cfl))
+                    out.evaluations += len(names)
+                    if got != both:
+                        d = sorted(got ^ both)[0]
+                        out.violation(dict(case, relation='list of case variants == union of the single patterns (%s)' % label, name=d,
+                                           swapped=swapped_text, impl=d in got), size=len(text) * 10, bucket=('R8', mode, label))
+                        return
             if ins:
                 # R1: closed under ASCII case change of the name ...
                 for n in names:
